@@ -8,7 +8,7 @@ import props.C06 as C06
 
 RULE = ('grammar scripts x {strip_whitespace, use_space_around_operators, reindent with every sub-option combination (thorough) / sampled (quick)}; the stated normal form is checked on the output text and by re-lexing; '
         'the first two outputs are formatted again (fixed point); sweeps: every clause keyword (every JOIN spelling) x 14 contexts where a query can stand x reindent option sets, '
-        'every operator spelling x 24 syntactic positions, whitespace runs of every kind between every pair of item kinds (comments included) x bracket contexts; '
+        'every operator spelling x 24 syntactic positions, every run of up to 3 comparison / 2 other operator characters x 3 contexts, whitespace runs of every kind (ASCII and Unicode) between every pair of item kinds (comments included) x bracket contexts; '
         'non-trivial = distinct (script, option set)')
 ASSUMPTIONS = ['re-lexing by the real lexer decides what is a comment/literal/operator in the output']
 PARTIAL = ['tree-level normal forms, the spaces fixed point, the IdentifierList fixed point criterion (KF-C10-3 = its counterexample) and the reindent clause for every list _process_default handles (clause keyword directly preceded by the nl() token, hypothesis noBreakBefore) are theorems; the lift of the reindent clause through _process_identifierlist/_case/_parenthesis and through the serializer regex, and the text-level reading of the normal forms, are oracle-checked; known findings KF-C10-2..4']
@@ -90,7 +90,10 @@ def check_reindent(ctx, text, opts):
             ctx.fail('reindent: a line ends in a blank', text, observed=repr(line)[:120], required='no trailing blank', options=repr(opts))
             return
     # every clause keyword (outside BETWEEN … AND) starts its own line
-    between = 0
+    # second red-team pass: an open BETWEEN lives at one nesting depth of one statement — it excuses the next AND at that depth only, and is
+    # forgotten at the closing bracket / END of its level and at the end of its statement (a dangling BETWEEN excuses nothing further on)
+    pending = []         # nesting depths of BETWEENs still waiting for their AND
+    depth = 0
     toks = oracles.lex(out)
     sig_before = False   # has a significant token been seen on the current line
     for tt, v in toks:
@@ -100,11 +103,18 @@ def check_reindent(ctx, text, opts):
         if tt in T.Whitespace:
             continue
         name = ' '.join(v.upper().split()) if tt in T.Keyword else None
+        if tt is T.Punctuation and v == '(' or name == 'CASE':
+            depth += 1
+        elif tt is T.Punctuation and v == ')' or name == 'END':
+            depth = max(0, depth - 1)
+            pending = [d for d in pending if d <= depth]
+        elif tt is T.Punctuation and v == ';':
+            depth, pending = 0, []
         if name == 'BETWEEN':
-            between += 1
+            pending.append(depth)
         is_clause = tt is T.Keyword and (name in CLAUSE_KW or name.endswith('JOIN'))
-        if is_clause and name == 'AND' and between:
-            between -= 1
+        if is_clause and name == 'AND' and pending and pending[-1] == depth:
+            pending.pop()
             is_clause = False
         if is_clause and sig_before:
             ctx.fail('reindent: clause keyword does not start its own line', text, observed=out[:400], required='%s at line start' % name, options=repr(opts))
@@ -140,6 +150,12 @@ CLAUSE_CONTEXTS = [
     'select a from t -- c\n where x -- d\n and y /* e */ or z /* f */ group by a -- g\n order by a',
     'select a from t where x in (1, 2) and (y or (z and w)) and f(a and b, c or d)',
     'delete from t where a and b or c',
+    # second red-team pass: a BETWEEN that never gets its AND (end of statement / of a bracket) must not excuse an AND further on
+    'select a from t where b between; {q}',
+    'select (a between), f(b between 1) from t where x and y or ({q})',
+    'select case when a between then 1 end from t where x and y; {q}',
+    # … and comments that end in blanks / tabs: 'no line ends in a blank'
+    'select a from t -- c  \n where x -- d \t\n and y /* e */  \n or z /* f \n g */ \n group by a --  \n order by a #  \n',
 ]
 CLAUSE_OPTS = [{'reindent': True}, {'reindent': True, 'comma_first': True}, {'reindent': True, 'indent_columns': True}, {'reindent': True, 'wrap_after': 20}, {'reindent': True, 'compact': True},
                {'reindent': True, 'indent_after_first': True, 'indent_tabs': True}, {'reindent': True, 'wrap_after': 1, 'indent_width': 4}, {'reindent': True, 'reindent_aligned': True}]
@@ -185,6 +201,20 @@ OP_CONTEXTS = ['a{o}b', 'select a{o}b from t', '(a{o}b)', 'f(a{o}b, c{o}d)', 'x[
                'a{o}/*c*/b', 'a/*c*/{o}b']
 
 
+def operator_runs():
+    """the operator rules of the lexer are character classes with '+': every run of up to three comparison characters and up to two of the other
+    operator characters is one token (second red-team pass: the spellings are not a finite list)"""
+    import itertools
+    out = []
+    for alphabet, n in (('<>=~!', 3), ('+/@#%^&|-', 2)):
+        for k in range(1, n + 1):
+            out += [''.join(p) for p in itertools.product(alphabet, repeat=k)]
+    return [o for o in out if '--' not in o]
+
+
+RUN_CONTEXTS = ['ab{o}cd', 'select f(ab{o}cd, 1), x[ab{o}cd] from t where (ab{o}cd)', "select 'ab'{o}'cd', ab{o}(cd) from t"]
+
+
 def operator_cases(ctx):
     """every operator/comparison spelling the lexer knows in every syntactic position (incl. directly after an opening bracket, inside subscripts)"""
     for o in OPERATORS:
@@ -195,10 +225,21 @@ def operator_cases(ctx):
                 check_spaces(ctx, text)
             except Exception as e:
                 ctx.fail('format raised ' + type(e).__name__, text, observed=repr(e)[:200], required='formatted text')
+    for oi, o in enumerate(operator_runs()):
+        for ci, cx in enumerate(RUN_CONTEXTS):
+            if ctx.quick() and (oi + ci) % 2:
+                continue
+            text = cx.replace('{o}', o)
+            try:
+                check_spaces(ctx, text)
+            except Exception as e:
+                ctx.fail('format raised ' + type(e).__name__, text, observed=repr(e)[:200], required='formatted text')
     ctx.count('sweep.operators')
 
 
 WS_RUNS = ['  ', ' \n ', '\n\n', '\t\t', '\r\n\r\n', ' \t ', '\n']
+# second red-team pass: the lexer's \\s is Unicode whitespace — non-breaking and typographic spaces, separators, FF/VT, the C0 separators
+WS_RUNS += ['\xa0\xa0', ' \xa0 ', '\u202f ', '\u2003\u2003', '\u3000\t', '\x0c\x0c', ' \x0b', '\x1f\x1c', '\u2028 ', '\u2007\u2009\u200a', '\x85\x85', '\u1680 ']
 WS_ITEMS = ['a', '1', "'s'", 'f(x)', '(b)', '/* c */', '-- c\n', '/*+ h */', 'a.b', 'case when a then b end', '[x]', 'x[1]', '*', 'a + b', 'a = b', 'not null', 'a, b']
 WS_CONTEXTS = ['select {x}{w}{y} from t', '({w}{x}{w}{y}{w})', 'f({w}{x}{w},{w}{y}{w})', 'select ({w}{x}{w}){w}{y}', '{x}{w}{y}', '(({w}{x}{w})){w}{y}', 'select a{w},{w}{x}{w},{w}{y} from t', '{w}{x}{w};{w}{y}{w}']
 
